@@ -867,6 +867,14 @@ func drawCase(t *rapid.T) Case {
 	if rapid.IntRange(0, 3).Draw(t, "explicitasm") != 0 {
 		plan = append(plan, "asm")
 	}
+	if rapid.IntRange(0, 3).Draw(t, "valuefirst") == 0 {
+		// the first argument is a value (a path or a plain string, not a call): it is the local
+		// value (@) of the next step, with the function name written or implied
+		plan = append(plan, pick(t, []any{"$", "$.src", "@", "@.src", "hello", "$.src.deep", "$.src.s1", "not a function", "$.src.i1"}, "first"))
+		plan = append(plan, []any{"set", "$.asm.first", pick(t, []any{
+			[]any{"get", "@.i1"}, []any{"get", "@.a.n"}, []any{"get", "@.src.i2"}, []any{"get", "@.s2"}, []any{"string?", "@"}, []any{"map?", "@"}, []any{"int?", "@"},
+		}, "probe")})
+	}
 	n := rapid.IntRange(1, 5).Draw(t, "nsteps")
 	for i := 0; i < n; i++ {
 		plan = append(plan, g.step(i))
